@@ -33,6 +33,7 @@ BASE_PROFILE = {
     'values': [0, 0.5, 1, 1.5, 2.25, 3], 'qualities': [1, 0.5, 0.75, 0.25],
     'p_same_instant': 0.3, 'p_initial_value': 0.0, 'p_poke': 0.0, 'p_trace': 0.0, 'p_scheduler': 0.2,
     'max_events': 20000,
+    'p_raise_stop': 0.1,
 }
 
 
@@ -66,6 +67,7 @@ def profile(name):
         p['ops_w']['create_asset'] = 1.0
         p['p_refuse'] = 0.2
         p['p_raise_finish'] = 0.08
+        p['p_raise_stop'] = 0.25
         p['p_same_instant'] = 0.5
     elif name == 'routing':       # C08
         p['stage_w'].update({'gates': 3.5, 'group': 3.5, 'nested_group': 1.2, 'flow': 1.2, 'batcher': 0.7,
@@ -219,6 +221,10 @@ class Gen:
         # (else: the library's default work-order duration / capacity / cost of 0)
         if it['ct'] > 0 and not it.get('ct_script') and rng.random() < self.p.get('p_raise_finish', 0):
             it['raise_at'] = rng.choice([1, 2, 3, 5, 8])      # user code failing in the finish callback, once
+        if rng.random() < self.p.get('p_raise_stop', 0):
+            it['raise_shutdown'] = rng.choice([1, 1, 2, 3])     # user code failing in a shutdown callback, once
+        if rng.random() < self.p.get('p_raise_stop', 0):
+            it['raise_restored'] = rng.choice([1, 1, 2, 3])     # ... in a restored callback, once
         if rng.random() < self.p.get('p_refuse', 0):
             it['refuse'] = rng.choice([1, 2, 2, 3])    # every k-th planned stop is refused by a shutdown callback
         return self.add(it)
@@ -695,6 +701,7 @@ def generate(seed, profile_name, tie=None, overrides=None, catching=False):
         prof.update(overrides)
     if not catching:
         prof['p_raise_finish'] = 0
+        prof['p_raise_stop'] = 0
     spec = Gen(rng, prof).generate(seed)
     spec['profile'] = profile_name
     if overrides and overrides.get('decimal'):
@@ -811,10 +818,54 @@ def generate_decimal_buffer(i, tie='prng'):
             'seed': i, 'max_events': 40000, 'decimal': True, 'profile': 'decimal_buffer'}
 
 
-def generate_fanout(seed, tie='prng'):
+def near_tie_combos():
+    out = []
+    for s_ in (0.1, 0.2, 0.3):
+        for b in (0.1, 0.2, 0.3, 0.4, 0.5, 0.6, 0.7, 0.8, 0.9, 1.1, 1.3):
+            a = round(b + s_, 1)
+            f1, f2 = s_ + a, (s_ + s_) + b
+            if f1 != f2 and abs(f1 - f2) < 1e-12:
+                out.append((s_, a, b))
+    return out
+
+
+def generate_near_tie(i, tie='prng'):
+    """Two parallel machines that become idle at the 'same' instant computed along two float paths (s + a and
+    2s + b, one unit in the last place apart), both behind plain pass-through devices; much later a third part
+    arrives: the machine that has really been idle longer must get it."""
+    combos = near_tie_combos()
+    s_, a, b = combos[i % len(combos)]
+    v = i // len(combos)
+    f1, f2 = s_ + a, (s_ + s_) + b
+    # the machine that becomes idle LATER is listed first, so that a tie (or a collapsed comparison) picks it
+    first, second = (('A', a), ('B', b)) if f1 > f2 else (('B', b), ('A', a))
+    # the first part must go to A (cycle a), the second to B: A is the only one open when the first part arrives
+    items = [{'id': 'S1', 'kind': 'source', 'ct': s_, 'budget': 2, 'values': [1], 'qualities': [1]}]
+    sender = 'S1'
+    if v % 2:
+        items.append({'id': 'H2', 'kind': 'handler', 'up': ['S1'], 'ct': 0})
+        sender = 'H2'
+    for name, ct in (first, second):
+        g = 'G' + name
+        items.append({'id': g, 'kind': ['gate', 'flow'][(v // 2) % 2], 'up': [sender], 'pred': {'t': 'always'}})
+        if items[-1]['kind'] == 'flow':
+            items[-1].pop('pred')
+        items.append({'id': name, 'kind': ['handler', 'processor'][(v // 4) % 2], 'up': [g], 'ct': ct, 'res': None})
+    items.append({'id': 'K9', 'kind': 'sink', 'up': ['A', 'B'], 'ct': 0, 'collect': True})
+    T = [5.0, 9.3, 1000.0, 2.0 ** 20][(v // 8) % 4]
+    script = [{'t': s_ * 1.5, 'prio': 10, 'op': 'unblock', 'target': 'GB'},
+              {'t': T, 'prio': 5, 'op': 'adjust_budget', 'target': 'S1', 'n': 1}]
+    pre = [{'t': None, 'prio': 5, 'op': 'block', 'target': 'GB'}]
+    return {'resources': {}, 'items': items, 'horizon': [T + 3.0], 'tie': tie, 'seed': i, 'max_events': 5000,
+            'script': script, 'pre': pre, 'decimal': True, 'profile': 'near_tie'}
+
+
+def generate_fanout(seed, tie='prng', decimal=False):
     """Fan-out models for the idle-longest rule: a sender feeding 2-4 parallel plain single-slot
-    devices (handlers, resource-free processors, sinks) with different cycle times."""
-    rng = random.Random(core.stable_int('fanout', seed))
+    devices (handlers, resource-free processors, sinks) with different cycle times, some of them behind plain
+    pass-through devices; decimal: one-decimal cycle times, so that idle-since instants such as 0.1+0.2 and 0.3
+    differ by one unit in the last place."""
+    rng = random.Random(core.stable_int('fanout', seed, decimal))
     items = []
     items.append({'id': 'S1', 'kind': 'source', 'ct': rng.choice([0.25, 0.5, 0.5, 1]), 'budget': None,
                   'values': [1, 2], 'qualities': [1]})
@@ -840,33 +891,58 @@ def generate_fanout(seed, tie='prng'):
         pid = f'X{j + 3}'
         kind = rng.choice(['handler', 'handler', 'processor', 'sink'])
         ct = rng.choice([0.5, 0.75, 1, 1.5, 2, 2.5, 3, 0.625, 1.125])
+        if decimal:
+            ct = rng.choice([0.1, 0.2, 0.3, 0.3, 0.6, 0.7, 1.1, 0.9])
         if burst and j == 0:
             kind, ct = 'sink', 0
+        leaf_up = sender
+        if rng.random() < (0.6 if decimal else 0.3):
+            # behind a plain pass-through device
+            gid = f'G{j + 3}'
+            if rng.random() < 0.5:
+                items.append({'id': gid, 'kind': 'gate', 'up': [sender], 'pred': {'t': 'always'}})
+            else:
+                items.append({'id': gid, 'kind': 'flow', 'up': [sender]})
+            leaf_up = gid
         if kind == 'processor':
-            items.append({'id': pid, 'kind': 'processor', 'up': [sender], 'ct': ct, 'res': None,
+            items.append({'id': pid, 'kind': 'processor', 'up': [leaf_up], 'ct': ct, 'res': None,
                           'wo': {'x': [1, 0, 0], 'y': [0.5, 0, 0]}})
+            if rng.random() < 0.3:
+                items[-1]['raise_shutdown'] = 1        # its shutdown callback fails the first time (caught by the caller)
         elif kind == 'sink':
-            items.append({'id': pid, 'kind': 'sink', 'up': [sender], 'ct': ct, 'collect': True})
+            items.append({'id': pid, 'kind': 'sink', 'up': [leaf_up], 'ct': ct, 'collect': True})
         else:
-            items.append({'id': pid, 'kind': 'handler', 'up': [sender], 'ct': ct})
+            items.append({'id': pid, 'kind': 'handler', 'up': [leaf_up], 'ct': ct})
         par.append((pid, kind))
     ups = [p for p, kd in par if kd != 'sink']
     if ups:
         items.append({'id': 'K99', 'kind': 'sink', 'up': ups, 'ct': 0, 'collect': rng.random() < 0.5})
     horizon = float(rng.choice([20, 30, 40]))
+    if decimal:
+        items[0]['ct'] = rng.choice([0.1, 0.2, 0.3, 0.1])
+        for it in items:
+            if it['kind'] in ('handler', 'buffer') and it['id'] in ('H2', 'B2'):
+                if 'ct' in it:
+                    it['ct'] = rng.choice([0, 0.1, 0.2])
+                if it.get('delay'):
+                    it['delay'] = rng.choice([0.1, 0.3, 0.7])
+        horizon = float(rng.choice([8, 12]))
     script = []
-    for _ in range(rng.choice([0, 2, 4, 6])):
+    for _ in range(rng.choice([0, 2, 4, 6]) if not decimal else 0):
         t = grid_time(rng, horizon)
         tgt = rng.choice(par)[0]
-        op = rng.choice(['block', 'block', 'fail'])
-        if op == 'fail' and dict(par)[tgt] != 'processor':
+        op = rng.choice(['block', 'block', 'fail', 'shutdown', 'shutdown'])
+        if op in ('fail', 'shutdown') and dict(par)[tgt] != 'processor':
             op = 'block'
         script.append({'t': t, 'prio': rng.choice(PRIOS), 'op': op, 'target': tgt})
         script.append({'t': min(horizon, t + rng.choice([0.5, 1, 2, 3])), 'prio': rng.choice(PRIOS),
                        'op': 'unblock' if op == 'block' else 'restore', 'target': tgt})
     script.sort(key=lambda e: e['t'])
-    return {'resources': {}, 'items': items, 'horizon': [horizon], 'tie': tie, 'seed': seed,
+    spec = {'resources': {}, 'items': items, 'horizon': [horizon], 'tie': tie, 'seed': seed,
             'max_events': 20000, 'script': script, 'profile': 'fanout'}
+    if decimal:
+        spec['decimal'] = True
+    return spec
 
 
 # float-noise profile: decimal (not exactly representable) times; only monitors whose oracle is
